@@ -87,7 +87,9 @@ def run(ctx):
     # spec: if the abstract run produced a value, it is the exact evaluation
     text = head + f"Definition cases : list (aexpr * list Z * iabs * option string) := {cases}.\n" + \
         ("Eval vm_compute in (bad (fun c : aexpr * list Z * iabs * option string => let '(e, rho, a, r) := c in "
-         "match a with IAbsValue cls (Some z) => negb (value_agrees (exact_eval rho e) (Some z)) | _ => false end) cases 0%Z).\n")
+         "match a with IAbsValue cls (Some z) => negb (value_agrees (exact_eval rho e) (Some z)) "
+         "| IAbsValue cls None => match exact_eval rho e with Some _ => true | None => false end "     # every input has a value: so must the result
+         "| _ => false end) cases 0%Z).\n")
     rc, o, e2, dt = vlib.eval_cases(ctx, "c15_spec", text)
     if rc != 0:
         raise RuntimeError("cases c15_spec failed: " + (o + e2)[-1200:])
